@@ -25,10 +25,11 @@ TSeg == IsEv("Seg") /\ PRecv(Ev.n)
 TParse == IsEv("Parse") /\ PCall(Ev.given, Ev.consumed, Ev.st)
 TReq == IsEv("Req") /\ PDeliver(ReqOf(Ev))
 TClosed == IsEv("Closed") /\ PClosed
+TWriteFailed == IsEv("ClientWriteFailed") /\ UNCHANGED pvars    \* the client could not write (server shut its read side): not a verdict
 TEnd == IsEv("End") /\ ~ended /\ PEnd
 TReset == IsEv("Reset") /\ wf' = FALSE /\ expected' = <<>> /\ total' = 0 /\ fed' = 0 /\ taken' = 0 /\ ngot' = 0 /\ mismatch' = FALSE
           /\ broken' = {} /\ closed' = FALSE /\ ended' = TRUE
-TNext == TStream \/ TSeg \/ TParse \/ TReq \/ TClosed \/ TEnd \/ TReset
+TNext == TStream \/ TSeg \/ TParse \/ TReq \/ TClosed \/ TWriteFailed \/ TEnd \/ TReset
 TSpec == TInit /\ [][TNext]_tvars
 
 Progress == TLCSet(42, IF l > TLCGet(42) THEN l ELSE TLCGet(42))
